@@ -288,7 +288,28 @@ def C13(ctx):
                   ["liveness (each goroutine actually exits once it can) needs fairness of select"], CHECKER)
 
 
-PROPS = {"C04": C04, "C13": C13, "C05": C05, "C20": C20, "C19": C19, "C06": C06, "C07": C07, "C10": C10, "C14": C14, "C15": C15, "C16": C16, "C01": C01, "C17": C17, "C02": C02, "C18": C18, "C03": C03, "C11": C11}
+def timer_prop(pid, modules, technique, nontrivial):
+    def run(ctx):
+        if common_prelude(ctx, modules):
+            n = sizes(ctx, 6, 60)
+            for sd in seeds(ctx):
+                res = run_harness(ctx, f"timers-{sd}", "timers", ["-seed", str(sd), "-n", str(n)])
+                fold(ctx, res, [pid] + (["C08"] if pid == "C09" else []), f"timer model vs real utils.Timer / Session timers, seed {sd}")
+        ctx.rules.append("real time: utils.Timer at T in {30,50,100} ms with random refresh schedules — measured expiry must lie in [last refresh + T, + T/10 + 40 ms slack] and within one polling period + slack of the "
+                         "model's ideal expiry for the observed refresh times; whole sessions at N = 1 s, both roles: heartbeat spacing with idle / send near the deadline / burst / random sends while the peer talks; "
+                         "probe scenarios: total silence (TestRequest at ~2 s, disconnect ~2 s later, handler stopped, context cancelled), an answer of any type in the second period, a message just before the "
+                         "deadline, a live peer (something every <= 1 s for 5 s: never probed); timer formula literals tied to the source text by the extractor; non-trivial = " + nontrivial)
+        return finish(ctx, "proof", technique, TRUSTED_COMMON + [
+            "time.Ticker / time.Now realise a poll within the stated slack (40 ms): timing is measured, the timer logic is proved",
+            "expiry decision and message emission are one atomic step in the model (the runtime can interleave a send: scheduling slack named in the property)"],
+            ["N >= 1 s; timers are exercised at N = 1 and T in {30,50,100} ms"], CHECKER)
+    return run
+
+
+C08 = timer_prop("C08", ["Props.C08"], "Lean theorems C08_upper / C08_lower over all refresh/poll sequences of the timer model + constants and formula text regenerated from source + real-time validation", "distinct refresh schedules / send patterns")
+C09 = timer_prop("C09", ["Props.C09"], "Lean theorems C09_live / silence_bound (timer) and C09_probe / disconnect / cancel (session model) + formula text regenerated from source + real-time probe/disconnect scenarios", "distinct inbound arrival patterns")
+
+PROPS = {"C08": C08, "C09": C09, "C04": C04, "C13": C13, "C05": C05, "C20": C20, "C19": C19, "C06": C06, "C07": C07, "C10": C10, "C14": C14, "C15": C15, "C16": C16, "C01": C01, "C17": C17, "C02": C02, "C18": C18, "C03": C03, "C11": C11}
 
 
 def replay(ctx, path):
